@@ -27,7 +27,7 @@ type Bounds struct {
 }
 
 var tiers = map[string]Bounds{
-	"quick":    {MaxC: 16, MaxK: 64, MaxOps: 120, MaxOut: 6, MaxG: 8, MaxM: 6, MaxSteps: 6000},
+	"quick":    {MaxC: 16, MaxK: 64, MaxOps: 300, MaxOut: 6, MaxG: 8, MaxM: 6, MaxSteps: 6000},
 	"thorough": {MaxC: 64, MaxK: 4096, MaxOps: 400, MaxOut: 16, MaxG: 64, MaxM: 10, MaxSteps: 50000},
 }
 
